@@ -324,15 +324,33 @@ inductive EErr where
   | other (cls : String)     -- anything else: propagates
   deriving DecidableEq, Repr
 
-/-- one non-wildcard step: `.` getattr, `[` subscription, `P` the registered `get` handler;
-    every failure of these is a PathAccessError (C01) -/
+/-- `cur[arg]`, including the harness's raising dict and `collections.UserDict` (an attribute object
+    whose `__getitem__` looks the key up in its `data` dict) -/
+def pyItem (cs : Classes) (h : Heap) (cur arg : Val) : Except PyExc Val :=
+  let c := cur.clsName h
+  if isA cs c "RDict" && isBad arg then .error (exc "KeyError")
+  else if isA cs c "UserDict" then
+    (match pyGetattr h cur (.str "data") with
+     | .ok d => pyGetitem h d arg
+     | .error _ => .error (exc "TypeError"))    -- excluded by `heapWF`: a UserDict has its `data`
+  else pyGetitem h cur arg
+
+/-- `cur + arg` for a number `arg` (the arithmetic steps the generator spells): numbers add,
+    anything else is a TypeError -/
+def pyAdd (cur arg : Val) : Except PyExc Val :=
+  match asIndex cur, asIndex arg with
+  | some a, some b => .ok (.int (a + b))
+  | _, _ => .error (exc "TypeError")
+
+/-- one non-wildcard step: `.` getattr, `[` subscription, `P` the registered `get` handler, `+`
+    addition; every failure of these is a PathAccessError (C01, C02: the classes each branch of
+    `_t_eval` names in its `except`) -/
 def accessStep (cs : Classes) (h : Heap) (op : String) (cur arg : Val) : Except EErr Val :=
   let r : Option (Except PyExc Val) :=
     if op == "." then some (applyGet cs h .getattr cur arg)
-    else if op == "[" then
-      some (if isA cs (cur.clsName h) "RDict" && isBad arg then .error (exc "KeyError")
-            else pyGetitem h cur arg)
+    else if op == "[" then some (pyItem cs h cur arg)
     else if op == "P" then some (applyGet cs h (getH cs (cur.clsName h)) cur arg)
+    else if op == "+" then some (pyAdd cur arg)
     else none
   match r with
   | some (.ok v) => .ok v
